@@ -13,4 +13,26 @@ META = {
         'assumptions': ['A-LIB mtscomp.Reader fields as stated in DESIGN 2.5'],
     },
 }
+
+
+TECH = ('contract-based deductive verification (home-built VC generator over the real /repo source, sidecar contracts, z3/cvc5) '
+        '+ bounded contract evaluation on the real code as labelled stand-in')
+TECH_B = 'contracts from the property statement evaluated on the real code over an exhaustively enumerated bounded scope (bounded stand-in of the contract-based technique; no obligation proved yet)'
+
+
+def _default(pid):
+    return {
+        'level': 'exploration',
+        'text': 'Bounded stand-in only so far: the contracts of DESIGN section 4/%s (postconditions from the property statement, oracle independent of phylib) '
+                'are evaluated on the real functions over an exhaustively enumerated small scope (bound printed in the evidence). Nothing is claimed as proved.' % pid,
+        'note': 'Bounded: holds only for the enumerated scope. Trusted: NumPy/SciPy/mtscomp/csv/json as oracles, the numpy.lib.format import shim (A-SHIM).',
+        'technique': TECH_B, 'design_ref': 'DESIGN.md section 4/%s' % pid, 'assumptions': [],
+    }
+
+
+for _i in range(1, 21):
+    _p = 'C%02d' % _i
+    if _p not in META:
+        META[_p] = _default(_p)
+
 NOT_APPLICABLE = {}
